@@ -139,6 +139,7 @@ pub enum Signal {
     Poly(Vec<f64>),
     Big, // noise with huge dynamic range
     Fade, // noise fading out through the subnormal range down to exact zero
+    Burst(i64), // noise in some segments of the given length, EXACT zeros in the others (per channel); some channels silent throughout
 }
 
 pub struct Inst<T: Smp> {
@@ -190,6 +191,17 @@ fn sample_at(sig: &Signal, seed: u64, ch: usize, n: i64) -> f64 {
                 0.0
             } else {
                 v * (2.0f64).powi(e.max(-1022)) * (2.0f64).powi((e + 1022).min(0))
+            }
+        }
+        Signal::Burst(seg) => {
+            let seg = (*seg).max(1);
+            let silent_channel = splitmix(seed ^ 0x5151 ^ ((ch as u64) << 20)) % 4 == 0;
+            let on = splitmix(seed ^ 0xb075 ^ ((ch as u64) << 32) ^ (n.div_euclid(seg) as u64)) % 2 == 0;
+            if silent_channel || !on || n < 0 {
+                0.0
+            } else {
+                let h = splitmix(seed ^ splitmix((ch as u64) << 40 ^ (n as u64)));
+                ((h >> 44) as f64) / 524288.0 - 1.0
             }
         }
         Signal::Impulse(at) => {
@@ -335,6 +347,7 @@ pub fn build<T: Smp>(op: &Value) -> (Option<Inst<T>>, Value) {
         "big" => Signal::Big,
         "fade" => Signal::Fade,
         "zero" => Signal::Zero,
+        "burst" => Signal::Burst(gi(op, "seg", 256)),
         "impulse" => Signal::Impulse(
             op.get("imp")
                 .and_then(|a| a.as_array())
